@@ -31,6 +31,48 @@ CHECKS = {
                 text="Soft alignments of every enumerated continuum validated as covers by well-formed unitary "
                      "alignments, with disorder equal to the exact minimum over all covers and <= partition optimum.",
                 note="Trusted: float64 oracle; <= 14 units; 1e-4 relative tolerance."),
+    "C05": dict(engine="E1 choice-point explorer over scripted sampler answers", design="§4 C05",
+                technique="stateless exploration of all answer sequences of a scripted sampler (first batch full "
+                          "product, second batch deviation-bounded) on the real compute_gamma, plus pass-through runs",
+                text="compute_gamma is executed for every sequence of scripted-sampler answers x n_samples x precision "
+                     "x mode; sample count, freshness, per-sample optimum, expected disorder and gamma are recomputed "
+                     "independently. Built-in samplers are run in pass-through for the ground-truth clause.",
+                note="Trusted: serial executor instead of the thread pool; float64 N_required with an ambiguity band."),
+    "C07": dict(engine="E3 universe + NumPy oracle + block families", design="§4 C07",
+                technique="explicit enumeration of bounded input universes and of block families around every "
+                          "buffer-growth boundary, float64 candidate-table oracle with exact-rational tie analysis",
+                text="valid_alignments() is compared, as a set with disorders, with an independent enumeration of all "
+                     "combinations for every enumerated continuum, and for parameterised families whose candidate "
+                     "count crosses 10 000 / 15 000 / 22 500 (/ 33 750).",
+                note="Trusted: NumPy oracle; membership on the cut asserted only for float32-exact ties."),
+    "C12": dict(engine="E3 universe x all alignments + definition oracle", design="§4 C12",
+                technique="explicit enumeration of bounded continua x all their partitions into unitary alignments x "
+                          "categories x combined dissimilarities, oracle = transcription of the definition",
+                text="gamma_k_disorder of every enumerated alignment, category and dissimilarity equals the stated "
+                     "weighted mean; GammaResults.gamma_cat/gamma_k equal 1 - observed/mean chance on result objects "
+                     "with known chance alignments; TypeError for non-combined dissimilarities.",
+                note="Cases without a counted real pair / zero weight / zero expectation are unspecified."),
+    "C15": dict(engine="E1 choice-point explorer + RNG seam", design="§4 C15",
+                technique="stateless exploration of all RNG answer sequences of the real sampler (deviation-bounded "
+                          "for 3 annotators), generative reference model and request-trace conformance",
+                text="Every answer sequence of np.random for the stated references / custom parameter sets is executed; "
+                     "validity of every draw, conformance of every request to the count/gap/duration/category laws "
+                     "with independently recomputed parameters, and equality with the generative model.",
+                note="NumPy's generator is trusted to follow the law it is asked for; finite generic answer menus."),
+    "C16": dict(engine="E1 choice-point explorer + RNG seam", design="§4 C16",
+                technique="stateless exploration of all RNG answer sequences of the real shuffle sampler (full product "
+                          "<= 3 sampled annotators, deviation-bounded for 5), model driven by the served answers",
+                text="Every answer sequence (available segment x uniform answers x ground-truth annotator) is executed "
+                     "and the sample compared with 'one ground-truth annotator shifted by its pivot, wrapped'; pivot "
+                     "separation checked whenever all pivots came from the pool.",
+                note="Known finding int-pivot-truncation is matched by signature; retry loop forced at most once."),
+    "C19": dict(engine="E1 choice-point explorer + RNG seam", design="§4 C19",
+                technique="stateless exploration of all RNG answer sequences of the real CorpusShufflingTool per "
+                          "perturbation (full product where finite) and per flag set (deviation-bounded)",
+                text="Each perturbation alone, each pair of flags and all 32 flag sets x include_ref x 4 magnitudes are "
+                     "executed for every answer sequence within the bound; validity and per-flag-set confinement "
+                     "clauses of the statement are asserted on every resulting corpus.",
+                note="Generic answers only; sub-precision cuts only under the bound, '+1 unit' not asserted there."),
 }
 
 PENDING_REASON = "check not built yet in this session (planned, see DESIGN.md section 4); not claimed until it runs"
@@ -67,8 +109,13 @@ def main():
             "add_only": True,
         },
         "engines": [
+            {"name": "E1 stateless choice-point explorer (deviation-bounded) + RNG seam",
+             "path": "mc/explorer.py, mc/rngseam.py, mc/e1.py",
+             "serves_properties": [p for p in ("C05", "C15", "C16", "C19") if p in CHECKS],
+             "kind_free_text": "exhaustive enumeration of answer sequences of np.random / a scripted sampler on the "
+                               "real code, replay-twice determinism check"},
             {"name": "E3 bounded input universes + reference oracles", "path": "mc/universe.py, mc/oracles.py",
-             "serves_properties": [p for p in props if p in CHECKS],
+             "serves_properties": [p for p in props if p in CHECKS and p not in ("C05", "C15", "C16", "C19")],
              "kind_free_text": "explicit-state enumeration of bounded input spaces against float64 reference models"},
         ],
         "checks": checks,
